@@ -732,10 +732,28 @@ class Interp:
                 base[key] = value
             elif isinstance(base, Vec) and isinstance(key, int):
                 base.items[key] = value
+            elif isinstance(base, Vec) and isinstance(key, Vec):
+                self._masked_store(base, key, value)
+            elif isinstance(base, Vec) and isinstance(key, tuple) and len(key) == 2 and isinstance(key[1], Vec):
+                row = base.items[self.lib.concrete_int(key[0])]
+                if not isinstance(row, Vec):
+                    raise AnalysisError("masked store into a scalar row")
+                self._masked_store(row, key[1], value)
             else:
                 raise AnalysisError(f"subscript store on {base!r}")
         else:
             raise AnalysisError(f"assignment target {target.__class__.__name__}")
+
+    def _masked_store(self, vec, mask, value):
+        """x[mask] = value, element-wise; an undecided mask entry keeps both outcomes under its condition"""
+        if len(mask) != len(vec):
+            raise SymRaise("IndexError", "boolean index did not match indexed array")
+        for i, m in enumerate(mask.items):
+            c = self.truth(m)
+            if c is sp.true:
+                vec.items[i] = value
+            elif c is not sp.false:
+                vec.items[i] = merge(c, value, vec.items[i])
 
     # ------------------------------------------------------------ expressions
     def truth(self, v):
